@@ -261,7 +261,8 @@ def run(ctx: Ctx) -> None:
 
     # ---------------------------------------------------------------- dispatch-time callbacks and the context attribute holding the entry
     pr = ctx.fn(f"{MW}.process_request")
-    acq, evar, install = _acquire_and_install(ctx, pr, lockf, fields)
+    acqs_all, evar, install = _acquire_and_install(ctx, pr, lockf, fields)
+    acq = acqs_all[0]
     entry_attr = _context_attr_of(pr, evar)
     callbacks = _sink_callbacks(ctx, pr, mw)
 
@@ -382,10 +383,10 @@ def run(ctx: Ctx) -> None:
     ctx.check(bool(lks & lsr.held(install)), D, "context-installed-under-entry-lock", pr, install,
               ok=f"the session context (state of `{evar}`) is installed only with `{lk}` held: same-session requests dispatch one at a time",
               bad=f"the session context is installed on a path where `{lk}` is not held: two requests can dispatch against the same session concurrently")
-    nonblocking = bool(acq.args or acq.keywords) and isinstance(cfgp.stmt_of(acq), ast.Expr)
-    ctx.check(not nonblocking, D, "acquire-is-blocking", pr, acq,
-              ok="the per-session acquire blocks until the lock is obtained",
-              bad=f"`{txt(acq)}` may return without the lock and its result is ignored: dispatch proceeds concurrently with the holder")
+    ignored = [a for a in acqs_all if bool(a.args or a.keywords) and isinstance(cfgp.stmt_of(a), ast.Expr)]
+    ctx.check(not ignored, D, "acquire-is-blocking", pr, (ignored or acqs_all)[0],
+              ok="the per-session acquire blocks until the lock is obtained (a try-acquire's result is not discarded)",
+              bad=f"`{txt((ignored or acqs_all)[0])}` may return without the lock and its result is ignored: dispatch proceeds concurrently with the holder")
     rels = [c for c in calls(pr) if isinstance(c.func, ast.Attribute) and c.func.attr == "release" and txt(c.func.value) in lks]
     after_install = cfgp.reach(cfgp.done(install), include_start=False)
     rel_after = [c for c in rels if cfgp.attempt(c) & after_install]
@@ -395,7 +396,7 @@ def run(ctx: Ctx) -> None:
               bad="the per-session lock is released before dispatch starts (released inside process_request after the context install): dispatch runs unlocked")
 
     # ---------------------------------------------------------------- (B) liveness re-validated after acquire
-    _check_revalidation(ctx, pr, acq, install, evar, reg, fields, lockf)
+    _check_revalidation(ctx, pr, acqs_all, install, evar, reg, fields, lockf)
 
 
 # ------------------------------------------------------------------------------------------------
@@ -466,7 +467,7 @@ def _check_hook_helper(ctx: Ctx, hook: FunctionInfo) -> None:
               bad="an exception raised by one session's close() propagates: the sessions already removed from the registry in the same batch never get their close hook")
 
 
-def _acquire_and_install(ctx: Ctx, pr: FunctionInfo, lockf: str, fields: set[str]) -> tuple[ast.Call, str, ast.Call]:
+def _acquire_and_install(ctx: Ctx, pr: FunctionInfo, lockf: str, fields: set[str]) -> tuple[list[ast.Call], str, ast.Call]:
     al = _lock_aliases(pr, lockf)
     acqs = []
     for c in calls(pr):
@@ -477,11 +478,14 @@ def _acquire_and_install(ctx: Ctx, pr: FunctionInfo, lockf: str, fields: set[str
             acqs.append((c, v.value.id))
         elif isinstance(v, ast.Name) and v.id in al:
             acqs.append((c, al[v.id]))
-    acq, evar = one(acqs, "per-session lock acquire", pr)
+    if not acqs or len({v for _c, v in acqs}) != 1:
+        raise AnalysisError(f"anchor=per-session lock acquire in {pr.fq}: expected acquires of one entry's lock, found {len(acqs)} on {sorted({v for _c, v in acqs})}")
+    acqs.sort(key=lambda cv: (cv[0].lineno, cv[0].col_offset))
+    evar = acqs[0][1]
     installs = [c for c in calls(pr) if last_attr(c) == "set" and any(isinstance(x, ast.Attribute) and x.attr in fields and x.attr != lockf and isinstance(x.value, ast.Name) and x.value.id == evar
                                                                         for a in [*c.args, *[k.value for k in c.keywords]] for x in ast.walk(a))]
     install = one(installs, f"installation of `{evar}`'s state into the session context", pr)
-    return acq, evar, install
+    return [c for c, _v in acqs], evar, install
 
 
 def _context_attr_of(pr: FunctionInfo, evar: str) -> str | None:
@@ -548,9 +552,21 @@ def _check_provenance(ctx: Ctx, f: FunctionInfo, call: ast.Call, e: str, rem: li
     return paired
 
 
-def _check_revalidation(ctx: Ctx, pr: FunctionInfo, acq: ast.Call, install: ast.Call, evar: str, reg: ClassInfo, fields: set[str], lockf: str) -> None:
+def _check_revalidation(ctx: Ctx, pr: FunctionInfo, acqs: list[ast.Call], install: ast.Call, evar: str, reg: ClassInfo, fields: set[str], lockf: str) -> None:
+    """Every path from any acquire of the entry's lock to the context install passes a liveness gate, and the
+    gate is decisive: with the registry's answer fixed to one value, the test takes the rejecting outcome whatever
+    the other names in it evaluate to (so `if waited and not is_live(...)` is not a gate: an uncontended acquire
+    after a completed DELETE skips it)."""
+    import itertools
+
+    from ..util import mini_eval
+
     cfg = cfg_of(pr.node)
-    after_acq = cfg.reach(cfg.done(acq), include_start=False)
+    acq = acqs[0]
+    acq_done: set[int] = set()
+    for a in acqs:
+        acq_done |= cfg.done(a)
+    after_acq = cfg.reach(acq_done, include_start=False)
     # names assigned, after the acquire, from a registry query
     def is_reg_call(c: ast.Call) -> bool:
         return any(t.cls is not None and t.cls == reg for t in ctx.res.resolve(pr, c, heuristic=False))
@@ -570,37 +586,96 @@ def _check_revalidation(ctx: Ctx, pr: FunctionInfo, acq: ast.Call, install: ast.
                     if isinstance(t, ast.Attribute) and t.attr in fields and not (isinstance(t.value, ast.Name) and t.value.id == "self"):
                         flag_fields.add(t.attr)
     flag_fields -= {lockf}
+
+    def live_atoms(t: ast.AST) -> list[ast.AST]:
+        out: list[ast.AST] = []
+        for x in ast.walk(t):
+            if isinstance(x, ast.Call) and is_reg_call(x):
+                out.append(x)
+            elif isinstance(x, ast.Name) and x.id in live_names:
+                out.append(x)
+            elif isinstance(x, ast.Attribute) and x.attr in flag_fields and isinstance(x.value, ast.Name) and x.value.id == evar:
+                out.append(x)
+        return out
+
+    def other_atoms(t: ast.AST, live_txt: set[str]) -> list[str]:
+        """Maximal sub-expressions that are neither boolean structure nor a liveness atom."""
+        out: list[str] = []
+
+        def rec(e: ast.AST) -> None:
+            if txt(e) in live_txt or isinstance(e, ast.Constant):
+                return
+            if isinstance(e, ast.BoolOp):
+                for v in e.values:
+                    rec(v)
+            elif isinstance(e, ast.UnaryOp) and isinstance(e.op, ast.Not):
+                rec(e.operand)
+            elif isinstance(e, ast.Compare) and all(isinstance(o, (ast.Is, ast.IsNot, ast.Eq, ast.NotEq)) for o in e.ops) and any(txt(x) in live_txt for x in [e.left, *e.comparators]):
+                for x in [e.left, *e.comparators]:
+                    rec(x)
+            elif txt(e) not in out:
+                out.append(txt(e))
+
+        rec(t)
+        return out
+
+    def decisive(n: ast.AST, blocked: list[str]) -> bool:
+        t = n.test  # type: ignore[attr-defined]
+        la = sorted({txt(x) for x in live_atoms(t)})
+        oa = other_atoms(t, set(la))
+        if len(oa) > 6:
+            raise AnalysisError(f"C26: liveness gate `{txt(t)[:80]}` has too many independent operands to enumerate")
+        for lv in itertools.product((True, False, None), repeat=len(la)):
+            outs = set()
+            try:
+                for ov in itertools.product((True, False), repeat=len(oa)):
+                    env: dict[str, object] = dict(zip(la, lv))
+                    env.update(zip(oa, ov))
+                    outs.add("T" if mini_eval(t, env) else "F")
+            except AnalysisError as exc:
+                raise AnalysisError(f"C26: cannot evaluate liveness gate `{txt(t)[:80]}`: {exc}") from exc
+            if len(outs) == 1 and next(iter(outs)) in blocked:
+                return True
+        return False
+
     gates: list[ast.If] = []
+    weak: list[ast.If] = []
     candidates: list[ast.If] = []
+    tgt = cfg.attempt(install)
     for n in walk_scope(pr.node):
         if not isinstance(n, (ast.If, ast.While)):
             continue
         if not (cfg.done(n) & after_acq):
             continue
-        t = n.test
-        live = any(isinstance(x, ast.Call) and is_reg_call(x) for x in ast.walk(t)) or bool(names_in(t) & live_names) or any(
-            isinstance(x, ast.Attribute) and x.attr in flag_fields and isinstance(x.value, ast.Name) and x.value.id == evar for x in ast.walk(t))
-        if not live:
+        if not live_atoms(n.test):
             continue
         candidates.append(n)  # type: ignore[arg-type]
-        # a real gate: one outcome cannot reach the install
-        tgt = cfg.attempt(install)
-        blocked = [lab for lab in ("T", "F") if not (cfg.reach({v for (_u, v) in cfg.test_edges(n, lab)}, cfg.done(acq)) & tgt)]
-        if blocked:
+        # a real gate: one outcome cannot reach the install ...
+        blocked = [lab for lab in ("T", "F") if not (cfg.reach({v for (_u, v) in cfg.test_edges(n, lab)}, acq_done) & tgt)]
+        if not blocked:
+            continue
+        # ... and the registry's answer alone decides that outcome
+        if decisive(n, blocked):
             gates.append(n)  # type: ignore[arg-type]
+        else:
+            weak.append(n)  # type: ignore[arg-type]
     inst = "liveness-revalidated-after-lock"
     if not candidates:
         ctx.fail(B, inst, pr, acq,
                  f"after `{txt(acq)}` returns, `{evar}` (looked up before waiting for the lock) is dispatched without re-checking that it is still registered: "
                  "a DELETE / close_session / reaper that closed the session while this request waited is followed by a dispatch against the closed state",
-                 path=cfg.describe_path(cfg.witness_path(cfg.done(acq), cfg.attempt(install)), pr.module.relpath))
+                 path=cfg.describe_path(cfg.witness_path(acq_done, cfg.attempt(install)), pr.module.relpath))
         return
     ctx.hold(B, inst, pr, candidates[0], "between lock.acquire() and the context install the entry's liveness is re-checked against the registry")
     avoid: set[int] = set()
     for g in gates:
         avoid |= cfg.done(g)
-    ok = bool(gates) and not (cfg.reach(cfg.done(acq), avoid, include_start=False) & cfg.attempt(install))
+    ok = bool(gates) and not (cfg.reach(acq_done, avoid, include_start=False) & cfg.attempt(install))
+    why = "the liveness re-check after the acquire does not stop the request: both of its outcomes (or a path around it) reach the context install, so a closed session is still dispatched"
+    if weak and not ok:
+        why = (f"the re-check `{txt(weak[0].test)[:100]}` rejects a dead entry only when its other operands allow it: the lookup and the acquire are separate critical sections, so a "
+               "DELETE / close_session / reaper that completes between them is followed by a dispatch against the closed state even when the acquire did not have to wait")
     ctx.check(ok, B, "liveness-gate-blocks-dispatch", pr, candidates[0],
-              ok="a dead entry found by the re-check is not dispatched (that outcome cannot reach the context install)",
-              bad="the liveness re-check after the acquire does not stop the request: both of its outcomes (or a path around it) reach the context install, so a closed session is still dispatched",
-              path=cfg.describe_path(cfg.witness_path(cfg.done(acq), cfg.attempt(install), avoid), pr.module.relpath) if not ok else None)
+              ok=f"a dead entry found by the re-check is not dispatched (that outcome cannot reach the context install from any of the {len(acqs)} acquire site(s); the registry's answer alone decides it)",
+              bad=why,
+              path=cfg.describe_path(cfg.witness_path(acq_done, cfg.attempt(install), avoid), pr.module.relpath) if not ok else None)
